@@ -8,7 +8,8 @@ CONSTANTS
   FIN = TRUE
   WEAK = TRUE
   DBG = TRUE
-  MAXRC = 100
+  MAXRC = 16382
+  MAXWC = 32767
   MaxRoots = 2
   MaxWRoots = 0
   MaxOps = 5
